@@ -30,6 +30,13 @@ impl<R> Registration<R> {
 pub type GlobalRules<L> = Registration<RuleCore<L>>;
 
 impl<L: Language> GlobalRules<L> {
+  /// check that `matches` inside global utility rules refer to defined utilities
+  pub(crate) fn verify_utils(&self) -> Result<(), crate::rule::RuleSerializeError> {
+    self.0.values().try_for_each(|r| r.verify_utils())
+  }
+}
+
+impl<L: Language> GlobalRules<L> {
   pub fn insert(&self, id: &str, rule: RuleCore<L>) -> Result<(), ReferentRuleError> {
     let map = self.write();
     if map.contains_key(id) {
